@@ -1,6 +1,7 @@
 """C06 - checksum is CRC-16/MODBUS; damaged frames are never delivered (DESIGN §6 C06)."""
 from __future__ import annotations
 
+import asyncio
 import itertools
 
 from .. import explorer, runner, worlds
@@ -192,10 +193,19 @@ class RxWorld(worlds.World):
         self.sock = S.AirTouchSocket(self.loop, "console", 9000 + gen, self.reg)
         self.got = []
 
+        self.policy = S.RetryPolicy(0, 30.0)
+
         async def on_msg(hdr, msg):
             self.got.append((hdr, msg))
         on_msg.__qualname__ = "rx.on_msg"
         self.sock.subscribe_on_message_received(on_msg)
+
+        async def on_conn(*, connected):
+            # a connection subscriber that takes a few loop iterations, like the API layer's (which sends requests)
+            for _ in range(3):
+                await asyncio.sleep(0)
+        on_conn.__qualname__ = "rx.on_conn"
+        self.sock.subscribe_on_connection_changed(on_conn)
         self.spawn(self.sock.open_socket())
         self.loop.settle()
 
@@ -209,10 +219,19 @@ def part_b_receive(job):
     corner_bursts = [b for b in bursts if len(b) == 2 or b[-1] - b[0] in (2, 3)][:: 3]
     probe = corpus(gen)[3][1]
     n = 0
-    for bits in singles + corner_bursts:
+    cases = [(b, False) for b in singles + corner_bursts] + [(b, True) for b in singles[::5]]
+    for bits, twice in cases:
         w = RxWorld(gen)
         bad = flip(frame, s, bits)
         t0 = w.net.live()[-1]
+        if twice:
+            # a second damaged frame is already waiting when the re-established connection opens
+            orig = w.net.on_open
+
+            def again(t, orig=orig, bad=bad, w=w):
+                w.net.on_open = orig
+                t.peer_send(bad)
+            w.net.on_open = again
         t0.peer_send(bad)
         w.loop.settle()
         n += 1
